@@ -38,7 +38,7 @@ class C05(Check):
     reference_models = ["ref/refext4.py tree_digest() and check()"]
 
     def budget(self, tier):
-        return {"runs": 700, "wall_s": 80} if tier == "quick" else {"runs": 30000, "wall_s": 1500}
+        return {"runs": 1500, "wall_s": 90} if tier == "quick" else {"runs": 30000, "wall_s": 1500}
 
     def generate(self, rng, tier):
         damage = rng.chance(0.55)
@@ -53,7 +53,8 @@ class C05(Check):
         if spec.get("casefold"):
             from world import gen_config
             cfg = gen_config(rng, want=["casefold", "filetype", "extent"], avoid=("mmp",))
-        w = build_world(rng, wd, cfg=cfg, scale=1.6, big_dir=rng.weighted([(0, 2), (rng.range(40, 200), 3), (rng.range(300, 900), 2)]))
+        w = build_world(rng, wd, cfg=cfg, scale=1.6, big_dir=rng.weighted([(0, 2), (rng.range(40, 200), 3), (rng.range(300, 900), 2)]),
+                        special_xattrs=rng.chance(0.4))
         if not w["rejected"] and spec.get("casefold"):
             # names that differ only in case, in an ordinary directory (without the +F flag they are different names)
             from world import debugfs_script
